@@ -154,6 +154,33 @@ def r2_late_joiners(ctx):
                                         # the closure result must be negated (filter keeps non-excluded)
                                         consulted = True
         ctx.check(consulted, "send_all/%s/excluded-consulted" % arm, site_of(sa, bb), "clients that connected after the event was buffered are not excluded in this arm")
+    # --- no over-exclusion: events buffered in a frame go into a set opened in that frame, so a client excluded from the
+    # sets that existed when it connected is never excluded from events sent afterwards
+    st = ctx.fn("server_event::BufferedServerEvents::start_tick")
+    stt = tracer(st)
+    pushes = [(bb, t) for bb, t in st.calls() if callee_decl(t).endswith("Vec::<T, A>::push") and any(any(e[0] == "f" and e[2] == "buffer" for e in x.path) for x in stt.operand(t["args"][0]))]
+    if ctx.check(len(pushes) == 1, "start_tick/opens-a-set", site_of(st), "%d pushes onto the buffer" % len(pushes)):
+        pb, pt = pushes[0]
+        rets = [b.idx for b in st.blocks if b.idx in st.reach and b.term["t"] == "return"]
+        skipping = [r for r in rets if st.reachable_avoiding(r, [], removed_blocks=(pb,))]
+        ctx.check(not skipping, "start_tick/opens-a-set-on-every-call", site_of(st, pb),
+                  "start_tick can return without opening a fresh set: events of a later frame are buffered into a set from which clients that connected in between are "
+                  "already excluded, so an intended recipient never receives them")
+        src = dep_closure(st, pt["args"][1])
+        fresh = any(k == "call" and callee_decl(st.blocks[d].term).rsplit("::", 1)[-1] in ("unwrap_or_default", "default", "new") for (k, d) in src)
+        from_buffer = any(k == "call" and callee_decl(st.blocks[d].term).rsplit("::", 1)[-1] in ("last", "last_mut", "clone") for (k, d) in src)
+        ctx.check(fresh and not from_buffer, "start_tick/fresh-set", site_of(st, pb), "the opened set is not a fresh (pooled-and-cleared or default) one")
+    at = ctx.fn("server_event::BufferedServerEvents::active_tick")
+    ok = any(callee_decl(t).endswith("last_mut") and any(any(e[0] == "f" and e[2] == "buffer" for e in x.path) for x in tracer(at).operand(t["args"][0])) for _, t in at.calls())
+    ctx.check(ok, "active_tick/newest-set", site_of(at), "events are not buffered into the most recently opened set")
+    ins = ctx.fn("server_event::BufferedServerEvents::insert")
+    ok = any(callee_decl(t).endswith("BufferedServerEvents::active_tick") for _, t in ins.calls())
+    ctx.check(ok, "insert/into-active-set", site_of(ins), "insert does not use active_tick()")
+    sob = ctx.fn("server::event::send_or_buffer")
+    sts = [bb for bb, t in sob.calls() if callee_decl(t).endswith("BufferedServerEvents::start_tick")]
+    uses = [bb for bb, t in sob.calls() if callee_decl(t).endswith("ServerEvent::send_or_buffer")]
+    ok = len(sts) == 1 and bool(uses) and all(sob.dominates(sts[0], u) for u in uses) and not [x for x in required_outcomes(F, sob, sts[0])]
+    ctx.check(ok, "send_or_buffer/opens-set-first", site_of(sob), "the per-frame system does not unconditionally open a set before buffering events")
     # filter closures keep the *non*-excluded
     for cb in F.closures_of(sa.path):
         cs = [t for _, t in cb.calls() if callee_decl(t).endswith("::contains")]
